@@ -133,6 +133,9 @@ class C09Part(M.MiscPart):
             # kernel underflows to 0), so a compaction whose coin is `false` promotes nothing and leaves an empty top level
             for s in range(1, 9):
                 hs.append(["rng %d" % s, "den.new 0 f 2 1", "den.updn 0 3 %d 2" % s, "den.ser 0", "den.updn 0 2 %d 2" % (s + 1), "den.ser 0"])
+                # ... and when the compaction at the end of a merge drops everything, num_retained = 0 with n = 2: is_empty()
+                hs.append(["rng %d" % s, "den.new 0 f 2 1", "den.updn 0 1 %d 2" % s, "den.new 1 f 2 1", "den.updn 1 1 %d 2" % (s + 50),
+                           "den.merge 0 1", "den.ser 0"])
         return hs
 
     def oracle(self, hist, impl_out):
